@@ -28,6 +28,7 @@ pub fn t_catalogue(prop: &str) -> Option<Vec<tcommon::Scn>> {
     "C08" => Some(t_c08::scenarios()),
     "C05" => Some(t_c05::scenarios()),
     "C06" => Some(t_c06::scenarios()),
+    "C17" => Some(t_c06::release_scenarios()),
     "C07" => Some(t_c07::scenarios()),
     "C09" => Some(t_c09::scenarios()),
     "C15" => Some(t_c15::c15_scenarios()),
@@ -43,7 +44,7 @@ pub fn t_catalogue(prop: &str) -> Option<Vec<tcommon::Scn>> {
 fn check(prop: &str, tier: &str) -> i32 {
   rxverif_rt::exec::install_quiet_panic_hook();
   match prop {
-    "C05" | "C06" => {
+    "C05" | "C06" | "C17" => {
       // sequential clause (engine S) + cross-thread clause (engine T) in one report
       let mut r = s_main::check(prop, tier).unwrap();
       r.engine = "S+T".into();
